@@ -121,3 +121,22 @@ def prove_all(sess, name, pc, claims, tags=None, timeout_ms=None):
 def sample(sess, **kw):
     if len(sess.samples) < 8:
         sess.samples.append({k: (str(v) if not isinstance(v, (int, float, str, list, dict)) else v) for k, v in kw.items()})
+
+
+def only_path(sess, paths, tag=None):
+    """The harness expects a single path. Any additional feasible path (e.g. a fork introduced by a change to the
+    code under analysis) is not ignored: it becomes a core obligation 'this extra path is infeasible', which a
+    feasible path fails (then the property's generic replay decides)."""
+    import inspect
+
+    if not paths:
+        raise sym.HarnessError("no path explored")
+    if len(paths) > 1:
+        where = tag or inspect.stack()[1].function
+        for k, p in enumerate(paths[1:], 1):
+            what = f"raises {type(p.exc).__name__}: {str(p.exc)[:60]}" if p.exc is not None else "returns"
+            if k > 6:
+                sess.notes.append(f"{where}: {len(paths) - 1} additional paths in total (only 6 examined)")
+                break
+            sess.prove(f"{where}: unexpected additional path {k} ({what}) is infeasible", p.pc, z3.BoolVal(False), timeout_ms=8000)
+    return paths[0]
